@@ -31,12 +31,17 @@ K_LD = LD(10 ** 7) / LD(2410) * LD(10) ** 12
 
 def oracle_chirp(dmv, fc, ref, rate, N, check_ctx=None):
     """H (complex128, shape N) and per-bin tolerance for one channel, from exact inputs (Fractions)."""
+    def ld(fr):
+        """Fraction -> longdouble with full extended precision (hi + lo split)."""
+        fr = F(fr)
+        hi = float(fr)
+        return LD(hi) + LD(float(fr - F(hi)))
+
     k = refdft.fftfreq_bins(N).astype(LD)
-    fc_l, ref_l, rate_l, dm_l = LD(float(fc)), LD(float(ref)), LD(float(rate)), LD(float(dmv))
-    # float(F) of these Fractions is exact (they are binary floats)
+    fc_l, ref_l, rate_l, dm_l = ld(fc), ld(ref), ld(rate), ld(dmv)
     off = k * rate_l / LD(N)
     f = fc_l + off
-    delta = (fc_l - ref_l) + off            # f - ref, exact difference first
+    delta = ld(F(fc) - F(ref)) + off        # f - ref: the exact rational difference first
     phi = K_LD * dm_l * delta * delta / (f * ref_l * ref_l)     # = K DM f (1/ref - 1/f)^2
     frac = phi - np.floor(phi)
     H = (np.cos(2 * refdft._PI_LD * frac) - 1j * np.sin(2 * refdft._PI_LD * frac)).astype(np.complex128)
